@@ -1,5 +1,6 @@
 import GqlModel.Syntax.Ast
 import GqlModel.Schema.Types
+import GqlModel.Validate.View
 /-
   The annotation layer of the validator (`validator/walk.go`).
 
